@@ -30,7 +30,7 @@ def time_limit(tier):
 
 
 def budget(tier):
-    return dict(specs=40) if tier == 'quick' else dict(specs=1500)
+    return dict(specs=64) if tier == 'quick' else dict(specs=1500)
 
 
 def profile():
@@ -186,6 +186,19 @@ def compare(res, m, desc, replay, first):
                 exp_catch = 'other' if any(getattr(f, 'implicit', False) for f in m.union_all_fields(d)) else None
                 if cd.get('catch_all') != exp_catch:
                     bad('catch_all', 'union', {'union': d.name, 'got': cd.get('catch_all'), 'expected': exp_catch})
+            if d.kind == 'alias':
+                # an alias of a struct or union (through aliases only) also names the class
+                rt, nullable = m.resolve_alias(gm.ref(d.ns, d.name))
+                if rt.kind == 'ref' and not nullable:
+                    res.count('items_compared')
+                    got_b = (md.get('class_bindings') or {}).get(d.name)
+                    exp_b = '%s.%s' % (rt.ns, rt.name)
+                    if got_b != exp_b:
+                        bad('alias_class_binding', 'alias', {'name': d.name, 'got': got_b, 'expected': exp_b})
+                    else:
+                        res.see('alias_class', 'chain' if d.type.kind == 'ref' and
+                                m.lookup(d.type.ns, d.type.name).kind == 'alias' else 'direct',
+                                'foreign' if rt.ns != d.ns else 'local')
             if d.kind in ('struct', 'union', 'alias'):
                 res.count('items_compared')
                 v = md['validators'].get(d.name + '_validator')
